@@ -165,24 +165,7 @@ def resolve_rows():
     origin_fn = ast.parse(textwrap.dedent(inspect.getsource(Import.origin.fget))).body[0]
     origin_calls = resolving_calls(origin_fn)
 
-    root = Path(rattr.__file__).resolve().parent
-    enter_args = []
-    for f in sorted(root.rglob("*.py")):
-        rel = "rattr/" + str(f.relative_to(root))
-        try:
-            tree = ast.parse(f.read_text())
-        except SyntaxError:
-            continue
-        for fnode in ast.walk(tree):
-            if not isinstance(fnode, (ast.FunctionDef, ast.AsyncFunctionDef)):
-                continue
-            for n in ast.walk(fnode):
-                if isinstance(n, (ast.With, ast.AsyncWith)):
-                    for i in n.items:
-                        c = i.context_expr
-                        if isinstance(c, ast.Call) and getattr(c.func, "id", getattr(c.func, "attr", None)) == "enter_file":
-                            enter_args.append((f"{rel}::{fnode.name}", ", ".join(ast.unparse(a) for a in c.args)))
-    enter_args = sorted(set(enter_args))
+    enter_args = enter_file_args()
 
     base = Path(os.path.realpath(tempfile.mkdtemp(prefix="c13lnk")))
     try:
@@ -212,12 +195,88 @@ def resolve_rows():
     finally:
         shutil.rmtree(base, ignore_errors=True)
 
+    triple = lambda p: "(" + lstr(p[0]) + ", " + lstr(p[1]) + ", " + lbool(p[2]) + ")"
     pair = lambda p: "(" + lstr(p[0]) + ", " + lstr(p[1]) + ")"
     prow = lambda p: "(" + lstr(p[0]) + ", " + llist(p[1]) + ")"
     return [
         f"def findResolvingCalls : List String := {llist(find_calls)}",
         f"def findReturns : List String := {llist(find_returns)}",
         f"def importOriginResolvingCalls : List String := {llist(origin_calls)}",
-        f"def enterFileArgs : List (String × String) := {llist(enter_args, pair)}",
+        f"def enterFileArgs : List (String × String × Bool) := {llist(enter_args, triple)}",
+        f"def pathNameProbe : List (String × String) := {llist(path_name_probe(), pair)}",
         f"def symlinkProbe : List (String × List String) := {llist(probe, prow)}",
     ]
+
+
+def enter_file_args():
+    """every `with enter_file(<arg>)` of the package under test: (function, source text of the argument,
+    whether the block compiles a root context / analyses a file — i.e. whether relative imports are
+    resolved under it)"""
+    import ast
+    from pathlib import Path
+
+    import rattr
+
+    root = Path(rattr.__file__).resolve().parent
+    out = []
+    for f in sorted(root.rglob("*.py")):
+        rel = "rattr/" + str(f.relative_to(root))
+        try:
+            tree = ast.parse(f.read_text())
+        except SyntaxError:
+            continue
+        for fnode in ast.walk(tree):
+            if not isinstance(fnode, (ast.FunctionDef, ast.AsyncFunctionDef)):
+                continue
+            for n in ast.walk(fnode):
+                if isinstance(n, (ast.With, ast.AsyncWith)):
+                    for i in n.items:
+                        c = i.context_expr
+                        if isinstance(c, ast.Call) and getattr(c.func, "id", getattr(c.func, "attr", None)) == "enter_file":
+                            compiles = any(
+                                isinstance(x, ast.Call)
+                                and getattr(x.func, "id", getattr(x.func, "attr", None))
+                                in ("compile_root_context", "__parse_and_analyse_file_impl")
+                                for b in n.body for x in ast.walk(b))
+                            out.append((f"{rel}::{fnode.name}", ", ".join(ast.unparse(a) for a in c.args), compiles))
+    return sorted(set(out))
+
+
+def star_enter_expression():
+    """source text of what `Context.expand_starred_imports` enters to compile a star-imported file (the
+    harness evaluates it, with `starred` bound to the Import symbol, instead of imitating it); None when
+    no `with enter_file(...)` block of that function compiles a root context"""
+    hits = [a for site, a, compiles in enter_file_args() if site.endswith("::expand_starred_imports") and compiles]
+    # none: the root context of a star-imported file is compiled outside every enter_file block, i.e. under
+    # whatever file is current (the harness then stays in the importing file); Tie A reports the change
+    return hits[0] if hits else None
+
+
+def path_name_probe():
+    """`derive_module_name_from_path` on a tree with a package named `py`, an `__init__` module name and a
+    plain module: (relative path, derived dotted name or "-")"""
+    import os
+    import shutil
+    import sys
+    import tempfile
+    from pathlib import Path
+
+    import impl
+    from rattr.module_locator import util as U
+
+    base = Path(os.path.realpath(tempfile.mkdtemp(prefix="c13nam")))
+    files = ["pa/__init__.py", "pa/py/__init__.py", "pa/py/ma.py", "pa/ma.py", "pa/py.py"]
+    try:
+        for f in files:
+            p = base / f
+            p.parent.mkdir(parents=True, exist_ok=True)
+            p.write_text("")
+        out = []
+        with impl.in_dir(str(base)):
+            impl.clear_caches()
+            for f in ["pa/__init__.py", "pa/py/__init__.py", "pa/py/ma.py", "pa/ma.py"]:
+                out.append((f, U.derive_module_name_from_path(f) or "-"))
+            impl.clear_caches()
+    finally:
+        shutil.rmtree(base, ignore_errors=True)
+    return out
